@@ -391,11 +391,20 @@ def _set_label(n):
             return True
         if s == "false":
             return False
+    # stored = "true"; ... value = strdup(stored);
+    if n.k == "BinaryOperator" and n.j.get("op") == "=" and n.children[0].strip().k == "DeclRefExpr" and n.children[0].strip().j.get("dk") == "local":
+        s = n.children[1].string_value()
+        if s in ("true", "false"):
+            v = n.children[0].strip().j["name"]
+            if any(c.call_args() and render(c.call_args()[0]) == v for c in n.fn.calls("strdup")):
+                return s == "true"
     return None
 
 
 def _get_consumer(fn, m):
-    """the getter hands the table's meaning on: *result = M"""
+    """the getter hands the table's meaning on: *result = M (or the table field is stored into *result directly)"""
+    if m == "*result":
+        return lambda v: bool(v)
     for lhs, rhs, st, kind in query.stores(fn):
         l = lhs.strip()
         if kind == "=" and rhs is not None and l.k == "UnaryOperator" and l.j.get("op") == "*" and query.refs_param(l.children[0], "result") \
